@@ -13,7 +13,7 @@ from vf.runner import chash
 def k_from_for(spec):
     """k>=1 when no initial stocks are imposed and nothing carries lagged holdings that start inconsistent."""
     for z in spec['zones']:
-        if z['gov']['deposits'] or z['gov']['form'] == 'gold':
+        if z['gov']['deposits'] or z['gov']['form'] in ('gold', 'gold_cb'):
             return 2
         for c in z['countries']:
             if c['role'] != 'central' and c['hh']['F0'] is not None:
